@@ -22,7 +22,10 @@ pub struct Tokenizer<'a> {
 
 impl<'a> Tokenizer<'a> {
     pub fn new(buf: &'a [u8]) -> Self {
-        Tokenizer::from_byte_iter(buf.iter())
+        let mut iter = buf.iter();
+        // A program header may be preceded by whitespace
+        util::skip_ws(&mut iter);
+        Tokenizer::from_byte_iter(iter)
     }
 
     pub fn new_params(buf: &'a [u8]) -> Self {
